@@ -365,12 +365,18 @@ def run(tier):
                        'suites_sha384[] matches; for every suite the constants reaching the switch-* natives (mode, key length, MAC hash, PRF '
                        'hash, CCM tag length) are the registry\'s (concrete unrolling of the table scan in the T0 interpreter model); the eight '
                        'br_ssl_engine_switch_* functions place MAC key, cipher key and IV at the RFC 5246 6.3 offsets for both roles, reader and '
-                       'writer tables agreeing, with the right key-block length; application-data gates are decided under C06. NOT decided: '
-                       'byte-exact delivery under all chunkings, the buffering state machine, interoperability of values.',
+                       'writer tables agreeing, with the right key-block length; the transition table of the record engine\'s I/O machine '
+                       '(sa/engio.py: empty records return to the ready state, consumed windows are recycled, full payload windows are flushed, '
+                       'sent records open a new one, make_ready_* establish the documented register values, max_frag_len clamps the window); '
+                       'application-data gates are decided under C06. NOT decided: '
+                       'byte-exact delivery under all chunkings (the register arithmetic between transitions), interoperability of values.',
                        trusted=['IANA table embedded in sa/checks/c01.py', 'sa/t0ai.py', 'debug-info variable names of the switch functions'])
     suite_table(chk)
     switch_encryption(chk)
     key_block_layout(chk)
     premaster_version(chk)
+    from .. import engio, oblig as _ob
+    _ob.run_obligations(chk, engio.progress_obligations())
+    engio.ready_state(chk)
     chk.floor('rule instances', len(chk.obls), 100)
     return chk.finish()
